@@ -23,8 +23,8 @@ add("C13",
     ):
         yield result""", """    for result in _get_wires_raw(object_collection, selection, recursive):
         yield result"""), "get_wires.py:_get_wires|filter"),
-    Mutant("Q4 '[' no longer neutralised in one branch",
-           (PAT, 'return fnmatch.fnmatchcase(value, pattern.replace("[", "[[]"))', "return fnmatch.fnmatchcase(value, pattern)"), None),  # other branch still neutralises: see next
+    Mutant("Q4 '[' no longer neutralised in one branch (cf. seeded C13-w2A)",
+           (PAT, 'return fnmatch.fnmatchcase(value, pattern.replace("[", "[[]"))', "return fnmatch.fnmatchcase(value, pattern)"), "[ special to matcher only"),
     Mutant("Q4 '[' not neutralised anywhere",
            [(PAT, 'return fnmatch.fnmatchcase(value, pattern.replace("[", "[[]"))', "return fnmatch.fnmatchcase(value, pattern)"),
             (PAT, 'pattern.replace("[", "[[]").lower()', "pattern.lower()")], "[ special to matcher only"),
